@@ -7,22 +7,22 @@ set -u
 P=$1; D=$(readlink -f $2); TIER=${3:-quick}
 WT=/tmp/try-$P-$$
 git -C /repo worktree add --detach $WT HEAD >/dev/null 2>&1 || exit 3
-cleanup() { git -C /repo worktree remove --force $WT >/dev/null 2>&1; rm -rf /tmp/trybuild-$P-$$; }
+cleanup() { git -C /repo worktree remove --force $WT >/dev/null 2>&1; rm -rf /tmp/trybuild-$P-$$ /tmp/try-$P-$$-*.log /tmp/try-$P-$$-apply.err; }
 trap cleanup EXIT
 cd $WT
-if ! git apply $D/patch.diff 2>/tmp/try-$P-apply.err; then
-  if ! git apply -3 $D/patch.diff 2>>/tmp/try-$P-apply.err && ! patch -p1 < $D/patch.diff >>/tmp/try-$P-apply.err 2>&1; then
+if ! git apply $D/patch.diff 2>/tmp/try-$P-$$-apply.err; then
+  if ! git apply -3 $D/patch.diff 2>>/tmp/try-$P-$$-apply.err && ! patch -p1 < $D/patch.diff >>/tmp/try-$P-$$-apply.err 2>&1; then
     echo "SEED $P $D: patch does not apply"; exit 4; fi
 fi
-cmake -G Ninja -B _build -S . >/dev/null 2>&1 && cmake --build _build >/tmp/try-$P-build.log 2>&1
+cmake -G Ninja -B _build -S . >/dev/null 2>&1 && cmake --build _build >/tmp/try-$P-$$-build.log 2>&1
 if [ $? -ne 0 ]; then echo "SEED $P $D: does not compile"; exit 5; fi
-ctest --test-dir _build -j8 --timeout 900 >/tmp/try-$P-ctest.log 2>&1; CT=$?
-TESTS=$(grep -c "Passed" /tmp/try-$P-ctest.log)
-bash $D/run.sh $WT >/tmp/try-$P-demo-mut.log 2>&1; DM=$?
+ctest --test-dir _build -j8 --timeout 900 >/tmp/try-$P-$$-ctest.log 2>&1; CT=$?
+TESTS=$(grep -c "Passed" /tmp/try-$P-$$-ctest.log)
+bash $D/run.sh $WT >/tmp/try-$P-$$-demo-mut.log 2>&1; DM=$?
 # unchanged tree: /repo/_build must be current
 ( cd /repo && cmake --build _build >/dev/null 2>&1 )
-bash $D/run.sh /repo >/tmp/try-$P-demo-clean.log 2>&1; DC=$?
+bash $D/run.sh /repo >/tmp/try-$P-$$-demo-clean.log 2>&1; DC=$?
 cd /verif
-VERIF_REPO=$WT VERIF_BUILD=/tmp/trybuild-$P-$$ python3 tools/check.py $P --tier $TIER >/tmp/try-$P-check.log 2>&1; CK=$?
-V=$(grep -m1 "^VIOLATION" /tmp/try-$P-check.log)
+VERIF_REPO=$WT VERIF_BUILD=/tmp/trybuild-$P-$$ python3 tools/check.py $P --tier $TIER >/tmp/try-$P-$$-check.log 2>&1; CK=$?
+V=$(grep -m1 "^VIOLATION" /tmp/try-$P-$$-check.log)
 echo "SEED $P $(basename $(dirname $D))/$(basename $D): ctest_rc=$CT passed=$TESTS demo_mut_rc=$DM demo_clean_rc=$DC check_rc=$CK ${V:-no-violation-line}"
